@@ -34,7 +34,7 @@ def main():
     pid = sys.argv[2]
     checks = sys.argv[3:] or [pid]
     meta = json.loads((src / 'meta.json').read_text())
-    sid = f'{pid}-{src.name}-' + re.sub(r'[^a-z0-9]+', '-', meta.get('title', 'seed').lower()).strip('-')[:40]
+    sid = f'{pid}-' + (os.environ.get('SEED_TAG', '') and os.environ['SEED_TAG'] + '-') + f'{src.name}-' + re.sub(r'[^a-z0-9]+', '-', meta.get('title', 'seed').lower()).strip('-')[:40]
     wt = Path(f'/var/tmp/verif_seed_wt_{os.getpid()}')
     sh(['git', '-C', '/repo', 'worktree', 'remove', '--force', str(wt)])
     assert sh(['git', '-C', '/repo', 'worktree', 'add', '--detach', str(wt), 'HEAD']).returncode == 0
